@@ -112,7 +112,8 @@ impl RenetClient {
         let ghost seq0 = self.packet_sequence as int;
         proof { broadcast use glue_lemmas::lemma_same_but_one; lemma_all_sendable_empty(seq0);
             assert(records_written(s0.sent_packets@, s0.sent_packets@, Seq::<Packet>::empty(), seq0, 0, s0.current_time)) by { reveal(records_written); }
-            assert(all_labelled(Seq::<Packet>::empty(), s0.channel_send_order@)); }
+            assert(all_labelled(Seq::<Packet>::empty(), s0.channel_send_order@));
+            lemma_kinds_kept_refl(s0.send_reliable_channels@); }
 //@loop 1 iter=itO
             invariant
                 itO.seq().len() == s0.channel_send_order@.len(),
@@ -128,6 +129,8 @@ impl RenetClient {
                 self.packet_sequence == seq0 + packets@.len(),
                 packets@.len() + available_bytes <= s0.available_bytes_per_tick + itO.index() * 0x800_0000_0000,
                 all_sendable(packets@, seq0),                                                        // @C13 get_packets_to_send.every_channel_packet_is_sendable
+                all_carried_in(packets@, self.send_reliable_channels@),                               // @C01,C02,C08 get_packets_to_send.everything_carried_names_a_queued_message_of_its_channel
+                kinds_kept(s0.send_reliable_channels@, self.send_reliable_channels@),
                 all_labelled(packets@, s0.channel_send_order@),                                      // @C03,C11 get_packets_to_send.every_packet_labelled_with_a_channel_of_the_send_order
                 forall|c: u8| #[trigger] self.send_reliable_channels@.contains_key(c) ==> self.send_reliable_channels@[c].channel_id == c,
                 forall|c: u8| #[trigger] self.send_unreliable_channels@.contains_key(c) ==> self.send_unreliable_channels@[c].channel_id == c,
@@ -156,6 +159,17 @@ impl RenetClient {
                         lemma_all_labelled_append(pk_before, added, s0.channel_send_order@);
                         lemma_all_sendable_append(pk_before, added, seq0);
                         lemma_packets_payload_append(pk_before, added);
+                        // what earlier packets carry is still queued under the same kinds; what the new ones carry is queued in this channel
+                        lemma_kinds_kept_one(s1.send_reliable_channels@, self.send_reliable_channels@, *channel_id);
+                        lemma_kinds_kept_trans(s0.send_reliable_channels@, s1.send_reliable_channels@, self.send_reliable_channels@);
+                        lemma_carried_in_kinds_kept(pk_before, s1.send_reliable_channels@, self.send_reliable_channels@);
+                        assert(all_carried_in(added, self.send_reliable_channels@)) by {
+                            assert forall|i: int| 0 <= i < added.len() implies carried_in(#[trigger] added[i], self.send_reliable_channels@) by {
+                                assert(packet_channel(added[i]) == Some(*channel_id));
+                                assert(carried_ok(added[i], self.send_reliable_channels@[*channel_id].unacked_messages@));
+                            }
+                        }
+                        lemma_all_carried_in_append(pk_before, added, self.send_reliable_channels@);
                     }
 //@after /let channel = self\.send_unreliable_channels\.get_mut\(channel_id\)\.unwrap\(\);/
                     let ghost uq0 = channel.unreliable_messages@;
@@ -197,7 +211,9 @@ impl RenetClient {
 //@before /let sent_at = self\.current_time;/
         let ghost pk = packets@;
         let ghost s2 = *self;
-        proof { assert(records_written(s2.sent_packets@, s2.sent_packets@, pk, seq0, 0, s2.current_time)) by { reveal(records_written); } }
+        proof { assert(all_carried_in(pk, s2.send_reliable_channels@)); assert(kinds_kept(s0.send_reliable_channels@, s2.send_reliable_channels@)); }
+        proof { assert(records_written(s2.sent_packets@, s2.sent_packets@, pk, seq0, 0, s2.current_time)) by { reveal(records_written); }
+                assert(new_records_ok(s2, s2.sent_packets@, seq0, 0)) by { reveal(new_records_ok); } }
         proof { assert(pk.len() <= 0x1_0000_0000_0000 + 256 * 0x800_0000_0000 + 1); }
 //@loop 2 iter=itQ
             invariant
@@ -205,6 +221,7 @@ impl RenetClient {
                 forall|i: int| 0 <= i < pk.len() ==> *(#[trigger] itQ.seq()[i]) == pk[i],
                 *self == (RenetClient { sent_packets: self.sent_packets, ..s2 }),
                 sent_at == s2.current_time,
+                new_records_ok(s2, self.sent_packets@, seq0, itQ.index() as int),                     // @C06,C08 get_packets_to_send.each_new_record_satisfies_the_record_invariant
                 records_written(s2.sent_packets@, self.sent_packets@, pk, seq0, itQ.index() as int, s2.current_time),   // @C01,C08,C15 get_packets_to_send.each_record_names_exactly_what_its_packet_carried
 //@after /for packet in packets\.iter\(\) \{/
             proof {
@@ -212,12 +229,15 @@ impl RenetClient {
                 lemma_all_sendable_at(pk, seq0, itQ.index() as int);
                 assert(packet_seq(*packet) == seq0 + itQ.index());
                 reveal(records_written);
+                reveal(new_records_ok);
+                assert(carried_in(pk[itQ.index() as int], s2.send_reliable_channels@));
             }
 //@before /let last_range = ack_ranges\.last\(\)\.unwrap\(\);/
                     proof { lemma_ranges_wf_at(ack_ranges@, ack_ranges@.len() - 1); }
 //@before /let mut buffer = /
         let ghost s3 = *self;
-        let ghost rec_done = records_written(s0.sent_packets@, s3.sent_packets@, pk, seq0, pk.len() as int, s0.current_time);
+        let ghost rec_done = records_written(s0.sent_packets@, s3.sent_packets@, pk, seq0, pk.len() as int, s0.current_time)
+            && new_records_ok(s2, s3.sent_packets@, seq0, pk.len() as int);
         proof { assert(rec_done); }
 //@loop 3 iter=itR
             invariant
@@ -233,6 +253,17 @@ impl RenetClient {
                 lemma_all_sendable_at(pk, seq0, itR.index() as int);
                 lemma_sendable_fits_carrier(packet);
             }
+            let ghost sp_before = serialized_packets@;
+            let ghost k3 = itR.index() as int;
+//@after /serialized_packets\.push\(buffer\[\.\.len\]\.to_vec\(\)\);/
+            proof {
+                assert(serialized_packets@ =~= sp_before.push(serialized_packets@.last()));
+                assert(serialized_packets@.last()@.len() == plen(pk[k3]));
+                assert forall|j: int| 0 <= j < k3 + 1 implies (#[trigger] serialized_packets@[j])@.len() == plen(pk[j]) && plen(pk[j]) <= 1300 by {
+                    if j < k3 { assert(serialized_packets@[j] == sp_before[j]); }
+                }
+                assert(payload_lens_ok(serialized_packets@, pk, k3 + 1));
+            }
 //@before /^\s+serialized_packets$/
         proof {
             assert(payload_lens_ok(serialized_packets@, pk, pk.len() as int));
@@ -242,6 +273,20 @@ impl RenetClient {
             assert(self.sent_packets@ == s3.sent_packets@);
             assert(s2.sent_packets@ == s0.sent_packets@ && s2.current_time == s0.current_time);
             assert(records_written(s0.sent_packets@, self.sent_packets@, pk, s0.packet_sequence as int, pk.len() as int, s0.current_time));
+            if s0.records_ok() {
+                assert forall|q: u64| #[trigger] self.sent_packets@.contains_key(q) implies self.record_ok(self.sent_packets@[q].info) by {
+                    reveal(records_written);
+                    reveal(new_records_ok);
+                    if seq0 <= q < seq0 + pk.len() {
+                        let i = q - seq0;
+                        assert(s2.record_ok(self.sent_packets@[(seq0 + i) as u64].info));
+                    } else {
+                        assert(s0.sent_packets@.contains_key(q) && self.sent_packets@[q] == s0.sent_packets@[q]);
+                        assert(s0.record_ok(s0.sent_packets@[q].info));
+                        lemma_record_ok_kinds_kept(s0, *self, s0.sent_packets@[q].info);
+                    }
+                }
+            }
         }
 //@endfn
 }
